@@ -1,4 +1,5 @@
 PROPERTY = {'id': 'C15',
+ 'extra': ['bounded.c15_agree.run'],
  'contract_modules': ['doctest_example', 'util_stream', 'checker', 'doctest_part', 'runner', 'plugin'],
  'functions': ['xdoctest.doctest_example:DocTest.run',
                'xdoctest.plugin:XDoctestItem.runtest',
@@ -39,6 +40,7 @@ PROPERTY = {'id': 'C15',
                    '(shared with C10)',
                    'XDoctestModule.collect: exactly one item per doctest that parse_doctestables yields for the file, in order, named by '
                    'unique_callname (= callname:num), parsed once with the style / analysis options of the command line'],
+             'B': ['generated modules whose doctests have outcomes known by construction (12 shapes: pass, quiet pass, wrong want, exception, expected exception only, all skipped, inline skipped, unmet REQUIRES, force-disabled, compile error, late failure, skip then pass) run by pytest --xdoctest in a sub-process and by the native runner: both report the constructed outcome per identifier (a force-disabled doctest: skipped under pytest, omitted natively) and signal failure exactly when a doctest failed (bounded/c15_agree.py)'],
              'T': ['compile / exec / eval / asyncio.run as oracles (pyvc/models_run.py): return a value or raise any class, write to the current '
                    'sys.stdout, may rebind sys.stdout, bind names in the dict they are given',
                    'CPython: an exception raised while running code compiled with filename F has a traceback entry of F',
